@@ -114,7 +114,22 @@ func indexTerm(ix map[uint64]uint64) string {
 
 // ---- building a V1 folder with the real V1 chronicler ------------------------------------------------
 
+// profile widens what a generated folder looks like beyond the ordinary small swamp
+type profile struct {
+	metaPad   int  // bytes of custom key/value metadata put into the meta file (metadata.SetKey)
+	longName  int  // length of the swamp part of the name (0: short name)
+	bigValues bool // treasures of tens / hundreds of KiB
+	oddKeys   bool // long, unicode and punctuation keys
+	manyKeys  bool // hundreds of keys
+}
+
+var profiles = []profile{
+	{}, {metaPad: 6000}, {bigValues: true}, {}, {metaPad: 90000}, {oddKeys: true}, {},
+	{longName: 5000}, {metaPad: 4000, oddKeys: true}, {manyKeys: true}, {}, {metaPad: 300000, bigValues: true}, {longName: 300, metaPad: 3900}, {},
+}
+
 type v1builder struct {
+	prof      profile
 	swampPath string
 	maxFile   int64
 	chron     chronicler.Chronicler
@@ -156,7 +171,23 @@ func (b *v1builder) treasure(key string, kind int) treasure.Treasure {
 	tr := treasure.New(nil)
 	gid := tr.StartTreasureGuard(false, guard.BodyAuthID)
 	tr.BodySetKey(gid, key)
-	switch b.seq % 4 {
+	switch b.seq % 9 {
+	case 4:
+		tr.SetContentFloat64(gid, float64(b.seq)*1.5)
+	case 5:
+		tr.SetContentBool(gid, b.seq%2 == 0)
+	case 6:
+		tr.SetContentVoid(gid)
+	case 7:
+		n := 1 + b.seq%50
+		if b.prof.bigValues {
+			n = []int{20000, 70000, 300000, 17000}[b.seq%4]
+		}
+		tr.SetContentByteArray(gid, bytes.Repeat([]byte{byte(b.seq), 0, 0xff}, n))
+		tr.SetExpirationTime(gid, time.Unix(int64(1900000000+b.seq), 0))
+	case 8:
+		tr.SetContentUint32(gid, uint32(b.seq))
+		tr.SetCreatedBy(gid, "creator")
 	case 0:
 		tr.SetContentInt64(gid, int64(b.seq)*1000003)
 	case 1:
@@ -181,16 +212,51 @@ func (b *v1builder) treasure(key string, kind int) treasure.Treasure {
 }
 
 // buildFolder runs a random history and returns nothing: the folder is on disk.
-func buildFolder(rng *common.Rng, swampPath string, maxFile int64, swampName string, nops int) {
-	b := &v1builder{swampPath: swampPath, maxFile: maxFile, fileOf: map[string]string{}}
+func buildFolder(rng *common.Rng, swampPath string, maxFile int64, swampName string, nops int, prof profile) {
+	b := &v1builder{prof: prof, swampPath: swampPath, maxFile: maxFile, fileOf: map[string]string{}}
+	if prof.longName > 0 {
+		swampName = swampName + "-" + strings.Repeat("n", prof.longName)
+	}
 	b.open(true, swampName)
+	// custom metadata, the way the swamp stores it (metadata.SetKey)
+	for i, left := 0, prof.metaPad; left > 0; i++ {
+		n := 200 + rng.Intn(800)
+		if n > left {
+			n = left
+		}
+		b.meta.SetKey(fmt.Sprintf("custom-%d", i), strings.Repeat(string(rune('a'+i%26)), n))
+		left -= n
+	}
 	nkeys := 2 + rng.Intn(30)
+	if prof.manyKeys {
+		nkeys = 100 + rng.Intn(80)
+		nops = 3 * nkeys
+	}
+	keyName := func(i int) string {
+		if !prof.oddKeys {
+			return fmt.Sprintf("key-%d", i)
+		}
+		switch i % 5 {
+		case 0:
+			return fmt.Sprintf("key-%d-%s", i, strings.Repeat("L", 200+i*37%2000))
+		case 1:
+			return fmt.Sprintf("kulcs-%d-\u00e1rv\u00edzt\u0171r\u0151-\u65e5\u672c", i)
+		case 2:
+			return fmt.Sprintf("k %d/with\\odd:chars\t\x00x", i)
+		case 3:
+			return fmt.Sprintf("%d", i)
+		}
+		return fmt.Sprintf("key-%d", i)
+	}
 	for done := 0; done < nops; {
 		nb := 1 + rng.Intn(12)
+		if prof.manyKeys {
+			nb = 20 + rng.Intn(60)
+		}
 		seen := map[string]bool{}
 		var batch []treasure.Treasure
 		for i := 0; i < nb; i++ {
-			k := fmt.Sprintf("key-%d", rng.Intn(nkeys))
+			k := keyName(rng.Intn(nkeys))
 			if seen[k] {
 				continue // the swamp hands each changed treasure once per write tick
 			}
@@ -266,17 +332,20 @@ func folderTerm(in *intern, swampPath string, metaName string) (term string, nfi
 	return fmt.Sprintf("(V1 [%s] %d)", strings.Join(files, "; "), in.pay(metaName)), nfiles, nsegs
 }
 
-func readMetaName(swampPath string) string {
-	f, err := os.Open(filepath.Join(swampPath, metadata.MetaFile))
-	if err != nil {
+// readMetaName: the swamp name as the LEGACY ENGINE reads it (metadata.LoadFromFile), not a decoder
+// of our own; the exported struct mirrors metadata.Meta only to get the raw string out.
+func readMetaName(swampPath string) (nm string) {
+	if _, err := os.Stat(filepath.Join(swampPath, metadata.MetaFile)); err != nil {
 		return ""
 	}
-	defer f.Close()
-	var m struct{ SwampName string }
-	if err := gob.NewDecoder(f).Decode(&m); err != nil {
-		return ""
-	}
-	return m.SwampName
+	defer func() {
+		if recover() != nil { // name.Load panics on names with fewer than three parts
+			nm = ""
+		}
+	}()
+	m := metadata.New(swampPath)
+	m.LoadFromFile()
+	return m.GetSwampName().Get()
 }
 
 // snapshot of a directory tree: path -> content
@@ -398,6 +467,15 @@ type caseOut struct {
 	hist       []string
 }
 
+func bits(n int) int {
+	b := 0
+	for n > 0 {
+		b++
+		n >>= 1
+	}
+	return b
+}
+
 func runMigrator(dataPath string, dry, verify, del bool) string {
 	m, err := migrator.New(migrator.Config{DataPath: dataPath, DryRun: dry, Verify: verify, DeleteOld: del, Parallel: 1, ProgressReport: time.Hour})
 	if err != nil {
@@ -513,6 +591,10 @@ func runCase(rng *common.Rng, self, template, work string, dry, verify, del bool
 		os.WriteFile(filepath.Join(swampPath, "ffffffff-0000-4000-8000-000000000000"), raw, 0o644)
 	}
 	metaName := readMetaName(swampPath)
+	metaSize := 0
+	if fi, err := os.Stat(filepath.Join(swampPath, metadata.MetaFile)); err == nil {
+		metaSize = int(fi.Size())
+	}
 	folder, nfiles, nsegs := folderTerm(in, swampPath, metaName)
 	before := snapshot(swampPath)
 
@@ -572,9 +654,9 @@ func runCase(rng *common.Rng, self, template, work string, dry, verify, del bool
 		common.Bool(dry), common.Bool(verify), common.Bool(del), pre, common.Bool(wf), phase,
 		common.Bool(intact), common.Bool(v1deleted), hyd, v2loaded)
 	out.descr = map[string]interface{}{"fault": faultName[fault], "dry_run": dry, "verify": verify, "delete_old": del,
-		"chunk_files": nfiles, "segments": nsegs, "v1_loaded_keys": len(v1idx), "outcome": outcome, "v1_intact": intact, "v1_deleted": v1deleted, "harness_error": harnessErr}
+		"meta_file_bytes": metaSize, "chunk_files": nfiles, "segments": nsegs, "v1_loaded_keys": len(v1idx), "outcome": outcome, "v1_intact": intact, "v1_deleted": v1deleted, "harness_error": harnessErr}
 	out.nontrivial = nfiles >= 2 || fault != fNone
-	out.hist = []string{"fault_" + faultName[fault], "outcome_" + outcome, fmt.Sprintf("flags_dry%v_verify%v_del%v", dry, verify, del)}
+	out.hist = []string{fmt.Sprintf("meta_file_bytes_2^%d", bits(metaSize)), "fault_" + faultName[fault], "outcome_" + outcome, fmt.Sprintf("flags_dry%v_verify%v_del%v", dry, verify, del)}
 	if nfiles >= 2 {
 		out.hist = append(out.hist, "multi_chunk_folder")
 	}
@@ -612,7 +694,7 @@ func main() {
 	}
 	run := common.NewRun(a, "C23", "HV.Storage.C23Migrate")
 	run.Shard = 100
-	run.Meta.Rule = "case = one V1 folder written by the real V1 chronicler (random write/modify/real-delete/shadow-delete history, max file size 256 B / 4 KiB / 64 KiB, restarts) migrated by the real migrator with one flag combination and one fault kind, V1 Load before vs V2 chronicler Load after compared on keys, canonical gob values and stored name; non-trivial = the folder has >= 2 chunk files or a fault (pre-existing .hyd: valid, torn tail, corrupt block, garbage shorter or longer than a header; garbled/truncated chunk, undecodable segment, foreign file, missing meta, duplicate key across chunks, RLIMIT_FSIZE during the V2 write) was injected"
+	run.Meta.Rule = "case = one V1 folder written by the real V1 chronicler (random write/modify/real-delete/shadow-delete history, max file size 256 B / 4 KiB / 64 KiB, restarts; profiles: custom metadata making the meta file 4 KiB .. 300 KiB, swamp names of 300 / 5000 bytes, values up to 900 KiB, long / unicode / binary keys, hundreds of keys, all scalar content types, expiry, created-by) migrated by the real migrator with one flag combination and one fault kind, V1 Load before vs V2 chronicler Load after compared on keys, canonical gob values and stored name; non-trivial = the folder has >= 2 chunk files or a fault (pre-existing .hyd: valid, torn tail, corrupt block, garbage shorter or longer than a header; garbled/truncated chunk, undecodable segment, foreign file, missing meta, duplicate key across chunks, RLIMIT_FSIZE during the V2 write) was injected"
 	rng := common.NewRng(a.Seed, "C23")
 	work, err := os.MkdirTemp("", "c23-")
 	if err != nil {
@@ -644,7 +726,7 @@ func main() {
 			nops = 0 // an empty swamp folder: only the meta file
 		}
 		os.MkdirAll(tmpls[i], 0o755)
-		buildFolder(frng, tmpls[i], maxFile, "verif/c23/swamp"+fmt.Sprint(i), nops)
+		buildFolder(frng, tmpls[i], maxFile, "verif/c23/swamp"+fmt.Sprint(i), nops, profiles[i%len(profiles)])
 	})
 	for i := 0; i < nfolders; i++ {
 		jrng := rng.Fork(fmt.Sprintf("jobs-%d", i))
